@@ -1477,3 +1477,76 @@ def autopop_api(rng, name, violation=None):
     api.options = ["transport=grpc+rest", "autogen-snippets=false"]
     api.info.update(pkg=pkg, version=ver, ns=["vp"], name=name, host=f"{name}.googleapis.com")
     return api
+
+
+MIXIN_METHODS = {
+    # client method -> (mixin key, rule index, full gRPC path, request type, response type, routing field, sample value)
+    "get_location": ("locations", 0, "/google.cloud.location.Locations/GetLocation", "google.cloud.location.GetLocationRequest", "google.cloud.location.Location", "name"),
+    "list_locations": ("locations", 1, "/google.cloud.location.Locations/ListLocations", "google.cloud.location.ListLocationsRequest", "google.cloud.location.ListLocationsResponse", "name"),
+    "get_iam_policy": ("iam", 0, "/google.iam.v1.IAMPolicy/GetIamPolicy", "google.iam.v1.GetIamPolicyRequest", "google.iam.v1.Policy", "resource"),
+    "set_iam_policy": ("iam", 1, "/google.iam.v1.IAMPolicy/SetIamPolicy", "google.iam.v1.SetIamPolicyRequest", "google.iam.v1.Policy", "resource"),
+    "test_iam_permissions": ("iam", 2, "/google.iam.v1.IAMPolicy/TestIamPermissions", "google.iam.v1.TestIamPermissionsRequest", "google.iam.v1.TestIamPermissionsResponse", "resource"),
+    "get_operation": ("operations", 0, "/google.longrunning.Operations/GetOperation", "google.longrunning.GetOperationRequest", "google.longrunning.Operation", "name"),
+    "list_operations": ("operations", 1, "/google.longrunning.Operations/ListOperations", "google.longrunning.ListOperationsRequest", "google.longrunning.ListOperationsResponse", "name"),
+    "delete_operation": ("operations", 2, "/google.longrunning.Operations/DeleteOperation", "google.longrunning.DeleteOperationRequest", "google.protobuf.Empty", "name"),
+    "cancel_operation": ("operations", 3, "/google.longrunning.Operations/CancelOperation", "google.longrunning.CancelOperationRequest", "google.protobuf.Empty", "name"),
+    "wait_operation": ("operations", 4, "/google.longrunning.Operations/WaitOperation", "google.longrunning.WaitOperationRequest", "google.longrunning.Operation", "name"),
+}
+
+
+def mixin_api(rng, name, mixins, rules_mode, own_iam=None, add_iam=False, transport="grpc+rest", prefix="/v1"):
+    """Service YAML mixin configurations (C17).  rules_mode in {all, some, none}; own_iam: None or a list of IAM RPC
+    names the API defines itself."""
+    api = Api(name)
+    ver = "v1"
+    pkg = f"vp.{name}.{ver}"
+    P = "." + pkg
+    deps = list(STD_DEPS) + ["google/iam/v1/iam_policy.proto", "google/iam/v1/policy.proto", "google/cloud/location/locations.proto"]
+    api.dep_mods += ["google.iam.v1.iam_policy_pb2", "google.iam.v1.policy_pb2", "google.cloud.location.locations_pb2"]
+    f = File(f"vp/{name}/{ver}/{name}.proto", pkg, deps=deps)
+    api.add(f)
+    q = f.message("Req")
+    q.field("name", "string")
+    r = f.message("Reply")
+    r.field("ok", "bool")
+    s = f.service("Vault", host=f"{name}.googleapis.com")
+    s.rpc("GetThing", P + ".Req", P + ".Reply", http={"get": "/v1/{name=things/*}"})
+    s.rpc("StartJob", P + ".Req", ".google.longrunning.Operation", http={"post": "/v1/{name=things/*}:start"}, body="*", lro=("Reply", "Req"))
+    for nm in own_iam or []:
+        rq, rs = {"SetIamPolicy": ("SetIamPolicyRequest", "Policy"), "GetIamPolicy": ("GetIamPolicyRequest", "Policy"),
+                  "TestIamPermissions": ("TestIamPermissionsRequest", "TestIamPermissionsResponse")}[nm]
+        verb = "get" if nm == "GetIamPolicy" else "post"
+        kw = dict(http={verb: f"/v1/{{resource=things/*}}:{nm[0].lower() + nm[1:]}"})
+        if verb == "post":
+            kw["body"] = "*"
+        s.rpc(nm, ".google.iam.v1." + rq, ".google.iam.v1." + rs, **kw)
+    rules = {}
+    for m in mixins:
+        n = len(MIXIN_RULES[m][1])
+        if rules_mode == "all":
+            rules[m] = list(range(n))
+        elif rules_mode == "none":
+            rules[m] = []
+        else:
+            rules[m] = sorted(rng.sample(range(n), rng.randint(1, n - 1))) if n > 1 else [0]
+    api.info["mixins"] = list(mixins)
+    api.info["rules"] = rules
+    api.info["own_iam"] = list(own_iam or [])
+    api.info["add_iam"] = add_iam
+    api.info["prefix"] = prefix
+    # rule paths carry a per-case prefix so that "uses the rule's path" is observable
+    extra_rules = []
+    doc_rules = {}
+    for m in mixins:
+        apiname, rl = MIXIN_RULES[m]
+        for i in rules[m]:
+            sel, r0 = rl[i]
+            r1 = {k: (v.replace("/v1/", prefix + "/") if isinstance(v, str) and v.startswith("/v1/") else v) for k, v in r0.items()}
+            doc_rules[sel] = r1
+    api.info["rule_by_selector"] = doc_rules
+    text = service_yaml(api, mixins=mixins, rules={m: [] for m in mixins},
+                        extra_rules=[{"selector": sel, **r} for sel, r in doc_rules.items()])
+    api.aux["service-yaml"] = ("svc.yaml", text)
+    api.options = [f"transport={transport}", "autogen-snippets=false"] + (["add-iam-methods"] if add_iam else [])
+    api.info.update(pkg=pkg, version=ver, ns=["vp"], name=name, host=f"{name}.googleapis.com")
+    return api
